@@ -14,13 +14,13 @@ import (
 )
 
 var recLife = ev.New("C12", "lifecycle-plans",
-	"rapid: one plan = real service on loopback from generated JSON (server socks5/none/direct with natTimeout 300 ms..2.5 s; ss2022 with 60 s only when enabled; "+
+	"rapid: one plan = real service on loopback from generated JSON (server socks5/none/direct with natTimeout 300 ms..2 s for eviction plans, 5..6 s for Stop plans; ss2022 with 60 s only when enabled; "+
 		"client direct or socks5/none/ss2022 towards a harness upstream proxy, endpoint by IP or by name; both batch modes) with 1..16 sessions and a drawn phase list over "+
 		"{establish, burst, continuous uplink stream, reply flood from the destination, short pause, pause >= natTimeout (eviction check), resend, sessions whose "+
 		"initialisation blocks in the resolver / fails / is rejected by the router}; Stop (context cancel) comes after the last phase while the asynchronous phases still run, "+
-		"so it lands in every phase. Oracle: sockets and relay goroutines counted from /proc/self/fd and the runtime stack dump; Run must return within 1 s when natTimeout >= 2 s; "+
+		"so it lands in every phase. Oracle: sockets and relay goroutines counted from /proc/self/fd and the runtime stack dump; Run must return within 2.5 s when natTimeout >= 5 s; "+
 		"afterwards no relay goroutine and no descriptor remain. Non-trivial: Stop under uplink and reply traffic, or an observed eviction; distinct key = configuration and phase classes").
-	Require("eviction-observed", "stop-under-bidirectional-traffic", "stop-bound-judged", "batch:no", "batch:sendmmsg", "router-reject")
+	Require("eviction-observed", "stop-under-bidirectional-traffic", "stop-bound-judged", "batch:no", "batch:sendmmsg")
 
 func workDir(t interface{ TempDir() string }) string {
 	if d := os.Getenv("VERIF_WORK"); d != "" {
@@ -78,6 +78,7 @@ func checkPlan(t failer, p *plan, dir string) {
 		if out.fatal {
 			t.Fatalf("harness cannot continue: %v\nplan=%s", out.setupErr, pj)
 		}
+		fmt.Fprintf(os.Stderr, "C12 scenario setup failed (no verdict): %v\n", out.setupErr)
 		t.Logf("scenario setup failed: %v", out.setupErr)
 		return
 	}
@@ -99,6 +100,11 @@ func checkPlan(t failer, p *plan, dir string) {
 	if ms := out.stopDur.Milliseconds(); ms > maxStopMs {
 		maxStopMs = ms
 		recLife.Extra("max-stop-ms", maxStopMs)
+		recLife.Extra("max-stop-class", p.class())
+	}
+	if os.Getenv("VERIF_DEBUG") != "" && out.stopDur.Milliseconds() > 100 {
+		pj, _ := json.Marshal(p)
+		fmt.Fprintf(os.Stderr, "C12 slow stop %v plan=%s\n", out.stopDur, pj)
 	}
 }
 
@@ -130,7 +136,7 @@ func TestReplayC12(t *testing.T) {
 }
 
 var recRegr = ev.New("C12", "stop-under-traffic-regression",
-	"plain: the fixed history of the listed finding (sessions streaming client datagrams while the destination floods replies, natTimeout 2 s, then cancel) "+
+	"plain: the fixed history of the listed finding (sessions streaming client datagrams while the destination floods replies, natTimeout 5 s, then cancel) "+
 		"repeated up to VERIF_C12_REGR_TRIALS times per relay implementation, stopping at the first hit. Non-trivial: every trial (Stop under bidirectional traffic)")
 
 // TestStopUnderTraffic is the frozen form of the shrunk failing plan: it does not depend on the
@@ -144,7 +150,7 @@ func TestStopUnderTraffic(t *testing.T) {
 	dir := workDir(t)
 	for _, cfg := range []struct{ server, batch string }{{"socks5", "no"}, {"none", "sendmmsg"}} {
 		for i := 0; i < trials; i++ {
-			p := &plan{Seed: uint64(i), ServerProto: cfg.server, BatchMode: cfg.batch, ClientProto: "direct", NATTimeoutMs: 2000, NSessions: 4,
+			p := &plan{Seed: uint64(i), ServerProto: cfg.server, BatchMode: cfg.batch, ClientProto: "direct", NATTimeoutMs: 5000, NSessions: 4,
 				Phases: []phase{{Kind: phStream}, {Kind: phFlood}}, StopDelayMs: 20}
 			out := runPlan(p, dir)
 			if out.setupErr != nil {
@@ -207,7 +213,8 @@ func TestSS2022IdleEviction(t *testing.T) {
 var recFixed = ev.New("C12", "keepalive-and-expiry",
 	"plain: fixed plans for two interleavings the random plans reach rarely within the quick budget: (a) sessions that keep sending with gaps of natTimeout/5 for 1.5 x natTimeout "+
 		"must keep their relay socket (the uplink extends the idle deadline), then are evicted and restarted; (b) 16 sessions each send one datagram spread over +-4 ms around the instant "+
-		"their idle timeout fires (packet arrives while the session is being torn down), three rounds. Both relay families' NAT variants, both batch modes. Non-trivial: every plan")
+		"their idle timeout fires (packet arrives while the session is being torn down), three rounds; (c) sessions rejected by the router, sessions whose initialisation fails, "+
+		"and sessions whose initialisation (endpoint name) or first pack (target name) is still blocked in the owned resolver when Stop is issued. NAT relay, both batch modes. Non-trivial: every plan")
 
 func TestKeepAliveAndExpiry(t *testing.T) {
 	dir := workDir(t)
@@ -220,6 +227,17 @@ func TestKeepAliveAndExpiry(t *testing.T) {
 			Phases: []phase{{Kind: phExpiry}, {Kind: phExpiry}, {Kind: phExpiry}, {Kind: phResend}}},
 		{Seed: 4, ServerProto: "none", BatchMode: "sendmmsg", ClientProto: "direct", NATTimeoutMs: 300, NSessions: 16,
 			Phases: []phase{{Kind: phExpiry}, {Kind: phExpiry}, {Kind: phExpiry}, {Kind: phResend}}},
+		// (c) sessions whose initialisation is rejected / fails / is still blocked in the resolver when Stop comes
+		{Seed: 5, ServerProto: "socks5", BatchMode: "no", ClientProto: "none", EndpointByName: true, NATTimeoutMs: 5000, NSessions: 2,
+			Phases: []phase{{Kind: phEstablish}, {Kind: phReject, N: 2}, {Kind: phFailInit, N: 2}, {Kind: phBlockInit, N: 3}}},
+		{Seed: 6, ServerProto: "none", BatchMode: "sendmmsg", ClientProto: "direct", NATTimeoutMs: 5000, NSessions: 2,
+			Phases: []phase{{Kind: phEstablish}, {Kind: phReject, N: 2}, {Kind: phFailInit, N: 2}, {Kind: phBlockInit, N: 3}}},
+		{Seed: 7, ServerProto: "socks5", BatchMode: "sendmmsg", ClientProto: "socks5", EndpointByName: true, NATTimeoutMs: 5000, NSessions: 3,
+			Phases: []phase{{Kind: phEstablish}, {Kind: phBlockInit, N: 2}, {Kind: phReject, N: 1}, {Kind: phStream}, {Kind: phFlood}, {Kind: phBlockInit, N: 2}}, HandshakeMs: 300},
+		{Seed: 8, ServerProto: "none", BatchMode: "no", ClientProto: "socks5", NATTimeoutMs: 5000, NSessions: 2,
+			Phases: []phase{{Kind: phEstablish}, {Kind: phBlockInit, N: 4}}, HandshakeMs: 400},
+		{Seed: 9, ServerProto: "socks5", BatchMode: "sendmmsg", ClientProto: "socks5", EndpointByName: true, NATTimeoutMs: 5000, NSessions: 2,
+			Phases: []phase{{Kind: phEstablish}, {Kind: phBlockInit, N: 3}}},
 	}
 	for _, p := range plans {
 		before := recLife // checkPlan records into recLife; keep this test's own counters as well
